@@ -80,7 +80,7 @@ def run(rep, tier, seed):
         recs = rnd.sample(recs, limit)
     cases = []
     VOC = {"d-red", "d-fill-darkblue", "d-text-none", "d-text-ol-red", "d-none", "d-text-bold", "d-text-large", "d-text-ol-thick",
-           "d-thin", "d-arrow", "d-biarrow", "d-dash", "d-dot", "d-dot-dash", "d-flow", "d-flow-rev", "d-grid", "d-grid-5", "d-hatch-10", "d-stipple-2",
+           "d-thin", "d-arrow", "d-biarrow", "d-dash", "d-dot", "d-dot-dash", "d-flow", "d-flow-fast", "d-flow-slower", "d-flow-rev", "d-grid", "d-grid-5", "d-hatch-10", "d-stipple-2",
            "d-softshadow", "d-hardshadow", "d-surround"}
     for j, c in enumerate(recs):
         with_text = "text" in c["elems"]
